@@ -47,6 +47,10 @@ def plStep (s : St) (ws : List String) : St × String :=
     | some t, some m =>
       withView { s with beh := fun x => if x = t then { s.beh t with add := m } else s.beh x } "ok"
     | _, _ => (s, "bad-op")
+  | ["once", t, m] => match t.toNat?, plAddMode m with
+    | some t, some m =>
+      withView { s with beh := fun x => if x = t then { s.beh t with once := 1, onceAdd := m } else s.beh x } "ok"
+    | _, _ => (s, "bad-op")
   | ["reg", t, m] => match t.toNat?, plRegMode m with
     | some t, some m =>
       withView { s with beh := fun x => if x = t then { s.beh t with reg := m } else s.beh x } "ok"
